@@ -456,10 +456,14 @@ impl Expression for ExpressionAssignUndefined {
             match left_result {
                 Err(err) => Err(err),
                 Ok(left_value) => {
-                    // Copy the value first, left and right may be the same object.
-                    let right_data = right_result.lock().unwrap().clone();
-                    right_data.clone_into(left_value.lock().unwrap().deref_mut());
-                    Ok(left_value.clone())
+                    if left_value.is_readonly() {
+                        Err(format!("Can't set read-only {left_value}"))
+                    } else {
+                        // Copy the value first, left and right may be the same object.
+                        let right_data = right_result.lock().unwrap().clone();
+                        right_data.clone_into(left_value.lock().unwrap().deref_mut());
+                        Ok(left_value.clone())
+                    }
                 }
             }
         } else {
